@@ -20,7 +20,7 @@ Proof.
   intros Ha Hb H. apply (f_equal le2z) in H. now rewrite !le2z_z2le32 in H by assumption.
 Qed.
 
-Lemma subaddr_preimage_layout (Hs : hs_fun) v i j :
+Lemma subaddr_preimage_layout v i j :
   subaddr_preimage v (i, j) = subaddr_prefix ++ sk_to_bytes v ++ le32 i ++ le32 j /\
   subaddr_prefix = [x53; x75; x62; x41; x64; x64; x72; x00] /\
   List.length (subaddr_preimage v (i, j)) = 48%nat.
